@@ -15,6 +15,7 @@ Line-protocol commands of the Restart family (`rst.*`, property C09).  Tokens as
 * `rst.sendstates <role> <conn> E <now> <stamp> <msg>`      stateless: the restarted connection for k = 0..5
                                                             → `<conn> | <conn> | …`  (six entries)
 * `rst.recvstates <sr> <role> <conn> E <now> <stamp> <msg>` same for inbound processing
+* `rst.evstates <sr> <role> <conn> E <event>`          stateless: `restart c | restart (step c event)`
 * `rst.segeq <sr> <conn> E <event>`                   `1` iff running all segments gives exactly the result
                                                       of the sequential model function (send / recv events)
 -/
@@ -79,6 +80,13 @@ def handle (st : St) (cmd : String) (args : List String) : St × String :=
       | some env, some msg =>
         (st, " | ".intercalate ((List.range 6).map fun k => showConn (recvCrash k sr env c msg r)))
       | _, _ => (st, "bad-op")
+    | _, _, _ => (st, "bad-op")
+  | "evstates", srT :: role :: rest =>
+    match parseSr srT, role.toNat?, parseConn rest with
+    | some sr, some r, some (c, "E" :: evT) =>
+      match parseEvent evT with
+      | some ev => (st, showConn (restart c r) ++ " | " ++ showConn (restart (step sr c ev).1 r))
+      | none => (st, "bad-op")
     | _, _, _ => (st, "bad-op")
   | "segeq", srT :: rest =>
     match parseSr srT, parseConn rest with
